@@ -34,7 +34,7 @@ META = {
     "rule": "case = one generated value (grammar of C08 with the weight on sets, frozensets, dicts, nested containers, paths, "
     "numpy arrays) or one task (python task with generated inputs; shell task with xor groups, split), observed in the parent "
     "and in every child interpreter; distinct by canonical JSON of the spec; non-trivial = the value contains a set, "
-    "frozenset or dict with at least two elements, or is a task",
+    "frozenset or dict with at least two elements, an array with more than one axis, or is a task",
     "assumptions": [
         "the same source files are importable in every session (functions are hashed through inspect.getsource)",
         "file inputs are out of scope here (C09)",
@@ -79,6 +79,9 @@ def gen_value(rng):
     if r < 0.55:  # chains of frozensets are totally ordered by proper subset
         a = [H.gen_key(rng, "str") for _ in range(3)]
         return {"k": "frozenset", "xs": [{"k": "frozenset", "xs": a[:1]}, {"k": "frozenset", "xs": a[:2]}, {"k": "frozenset", "xs": a}]}
+    if r < 0.72 and r >= 0.62:  # arrays in every memory layout (alone and inside containers)
+        arr = H.gen_ndarray(rng)
+        return arr if rng.random() < 0.5 else {"k": "dict", "items": [[H._s("a"), arr], [H._s("b"), H.gen_ndarray(rng)]]}
     if r < 0.62:  # sets of incomparable sets (D6, repaired): must be seed independent
         ks = rng.sample(H.STRS, 4)
         return {"k": "frozenset", "xs": [{"k": "frozenset", "xs": [H._s(ks[0]), H._s(ks[1])]}, {"k": "frozenset", "xs": [H._s(ks[2]), H._s(ks[3])]}]}
@@ -126,7 +129,10 @@ def d6_kind_of_task(spec) -> str | None:
 
 
 def _nontrivial_value(s) -> bool:
-    return any(n["k"] in ("set", "frozenset", "dict") and len(n.get("xs", n.get("items", []))) >= 2 for n in H.walk(s))
+    return any(
+        (n["k"] in ("set", "frozenset", "dict") and len(n.get("xs", n.get("items", []))) >= 2) or (n["k"] == "ndarray" and len(n["shape"]) >= 2)
+        for n in H.walk(s)
+    )
 
 
 def observe(ctx, values: list[dict], tasks: list[dict], moddir: Path):
@@ -188,6 +194,8 @@ def _shuffle(rng, n):
         xs = list(n["xs"])
         rng.shuffle(xs)
         return ({**n, "xs": xs}, "same:set-build-order")
+    if n["k"] == "ndarray" and n["shape"]:
+        return ({**n, "layout": rng.choice([l for l in H.LAYOUTS if l != n.get("layout", "C")])}, "same:array-layout")
     if n["k"] == "dict" and len(n["items"]) >= 2 and len({H._ck(kv[0]) for kv in n["items"]}) == len(n["items"]):
         it = list(n["items"])
         rng.shuffle(it)
